@@ -1410,8 +1410,32 @@ pub fn run_c04(tier: Tier) -> i32 {
             other => v4fail(&ctx, "client_rejects_broker_bytes", &format!("client (v5={v5}) cannot decode what the broker wrote ({} bytes left): {other:?}", r.len()), &pkt, &out),
         }
     }
+    // ---- shapes only the router builds (a forward keeps the publisher's packet id when the
+    // subscription lowers it to QoS 0, acknowledgements and forwards of every QoS towards
+    // both versions): taken from the real router through the real connection tasks — every
+    // pair of protocol versions x publisher QoS x subscription QoS; whatever reaches a client
+    // must be decodable there, frame by frame, with the topic and payload that were sent
+    let flows = crate::e7_flow::flows("C20", true);
+    let flow_bad: Vec<(String, String, serde_json::Value)> = flows
+        .par_iter()
+        .filter_map(|f| {
+            let o = crate::e7_flow::run_flow(f);
+            let viols = crate::e7_flow::judge(P4, f, &o);
+            let v = viols.iter().find(|v| matches!(v.code.as_str(), "client_cannot_decode" | "spurious_forward" | "unexpected_forward" | "undelivered" | "unexpected_reply" | "missing_reply" | "connection_task_panic"))?;
+            let o2 = crate::e7_flow::run_flow(f);
+            if crate::e7_flow::judge(P4, f, &o2) != viols {
+                crate::vcore::machinery_error("E7 flow under C04 is not deterministic");
+            }
+            Some((v.code.clone(), v.detail.clone(), json!({"engine": "e7_flow", "prop": "C04", "flow": f})))
+        })
+        .collect();
+    for (code, detail, replay) in flow_bad {
+        ctx.reporter.report(&Violation::new(P4, "router_built_packet_not_decodable", format!("{code}: {detail}")), || replay);
+    }
+    ctx.evals.fetch_add(flows.len() as u64, Ordering::Relaxed);
+    ev.set("router_built_shapes", json!({"fullstack_flows": flows.len(), "what": "publisher version x subscriber version x publisher QoS x subscription QoS, with and without MQTT 5 properties, through the real router and connection tasks"}));
     let evals = ctx.evals.load(Ordering::Relaxed);
-    ev.states = (g4.len() + g5.len() + shapes.len()) as u64;
+    ev.states = (g4.len() + g5.len() + shapes.len() + flows.len()) as u64;
     ev.transitions = evals;
     ev.traces_validated = evals;
     ev.set("evaluations", json!(evals));
